@@ -556,8 +556,8 @@ class IsExecutorNeeded(DeclContract):
 
         def havoc_and_remember(it, env):
             orig(it, env)
-            it.st.ghost['ghost:proc0'] = env.lookup('is_process_pool_needed')[1]
-            it.st.ghost['ghost:thr0'] = env.lookup('is_thread_pool_needed')[1]
+            it.st.ghost['ghost:proc0'] = it.lookup_local(env, 'is_process_pool_needed')[1]
+            it.st.ghost['ghost:thr0'] = it.lookup_local(env, 'is_thread_pool_needed')[1]
         sp._havoc = havoc_and_remember
         return [sp]
 
@@ -765,7 +765,7 @@ class Traverse(DeclContract):
         locs = graph_locs(snap, b) + [(snap.getf(b, '_node_map'), 'map'), (snap.getf(b, '_recurrent_sub_graphs'), 'items'),
                                       (snap.getf(b, '_synthetic_nodes'), 'items')]
         for name in ('visited', 'stack'):
-            found, v = env.lookup(name)
+            found, v = it.lookup_local(env, name)
             if found and isinstance(v, Ref):
                 locs.append((v, 'elems' if v.cls == 'set' else 'items'))
         return locs
@@ -785,7 +785,7 @@ class Traverse(DeclContract):
 
     def _remember_visited(self, name):
         def ghost_init(it, env):
-            found, v = env.lookup('visited')
+            found, v = it.lookup_local(env, 'visited')
             e = it.st.getf(v, 'elems')
             if isinstance(e, frozenset):
                 e = it.models.symset_of(it, e)
